@@ -237,6 +237,48 @@ def r_offset_coherent(ctx):
                               % (unparse(c), 'return' if hit[0] == cfg.exit.id else 'write records'), instance=inst)
             else:
                 ctx.ok(inst, m.loc(c), 'every path to a record write / the normal exit passes a store of the in-memory offset or a publish of it')
+    # the publish helper itself: it writes the header on every path, unless it skips the write because a cached copy of the
+    # published value -- primed from the file when the journal is opened -- already equals the argument
+    pcfg = U.explorer(ctx, pub).cfg
+    hw = [n.id for n in pcfg.nodes if n.kind in ('stmt', 'cond') and n.ast is not None and any(
+        isinstance(c, ast.Call) and isinstance(c.func, ast.Attribute) and c.func.attr == 'write' and P.self_attr(c.func.value, pub.self_name) == fa for c in ast.walk(n.ast))]
+    inst = 'the publish helper writes the header whenever the value differs from what the file holds'
+    ctx.tick()
+    if not hw:
+        ctx.violation('%s:publish-writes-nothing' % pub.qualname, pub.loc(), 'the publish helper no longer writes the header', instance=inst)
+    elif pcfg.exit.id not in pcfg.reachable_from(pcfg.entry.id, avoid=hw, follow_exc=False):
+        ctx.ok(inst, pub.loc(), 'header write on every path')
+    else:
+        cached = set()
+        for n in pcfg.nodes:
+            if n.kind == 'cond':
+                for x in ast.walk(n.ast):
+                    a = P.self_attr(x, pub.self_name)
+                    if a:
+                        cached.add(a)
+        init = fj.methods.get('__init__')
+        primed = bool(cached)
+        for a in cached:
+            inits = [st for st, k in U.assigns_to_attr(P, init, a)] if init is not None else []
+            ok_a = bool(inits)
+            for st in inits:
+                v = st.value
+                if isinstance(v, ast.Name) and U.single_assign_value(init, v.id) is not None:
+                    v = U.single_assign_value(init, v.id)
+                from_file = any(isinstance(c, ast.Call) and any(t.owner_cls is fj and any(isinstance(y, ast.Call) and isinstance(y.func, ast.Attribute) and y.func.attr == 'read'
+                                                                                              and y.args and isinstance(y.args[0], ast.Name) and y.args[0].id == hdr
+                                                                                              for y in ast.walk(t.node)) for t in P.resolve_call(init, c).targets)
+                                for c in ast.walk(v))
+                if not from_file:
+                    ok_a = False
+            primed = primed and ok_a
+        if primed:
+            ctx.ok(inst, pub.loc(), 'write skipped only against self.%s, which the constructor primes from the file header' % ', self.'.join(sorted(cached)))
+        else:
+            ctx.violation('%s:publish-skipped-on-unprimed-cache' % pub.qualname, pub.loc(),
+                          'the publish helper can return without writing the header (it compares with %s), and that cached value is not read from the file when the journal is '
+                          'opened: after a reopen, an operation that publishes the constructor\'s default value is silently not persisted'
+                          % (', '.join('self.' + a for a in sorted(cached)) or 'nothing that identifies the published value'), instance=inst)
     ctx.expect_min(2)
 
 
